@@ -623,4 +623,111 @@ theorem select_nested_keys (kids : List Node) (hp : PlainNodes kids) (hwf : NoSi
   rw [plainSeq_ins kept' hpk, plainSeq_ins kids hp]
   exact hins
 
+/-! ### the option variants of the forward on *nested* sequences with default-option children
+
+`Props/C14.lean` proves `forward_tensordict_out`, `forward_inplace_false` and `forward_selected_out_keys` for a flat
+list of plain modules; with the copying counterpart of `fwdKids_nested` they hold for nested sequences of any depth
+(the options sit on the outer sequence, the children have default options), in terms of the flat list of modules. -/
+
+/-- `fwdKids_nested` when the outer sequence executes on a copy -/
+theorem fwdKids_nested_copy : ∀ (kids : List Node), PlainNodes kids → ∀ (a e r : Env), run (flatNodes kids) e = some r →
+    fwdKids false kids false { arg := a, exec := some e } = .ok { arg := a, exec := some r }
+  | [], _, a, e, r, hr => by
+    simp only [flatNodes, run, Option.some.injEq] at hr; subst hr
+    simp [fwdKids]
+  | n :: ns, hp, a, e, r, hr => by
+    simp only [PlainNodes] at hp
+    simp only [flatNodes, run_append] at hr
+    cases h1 : run (flatNode n) e with
+    | none => simp [h1] at hr
+    | some e1 =>
+      simp only [h1, Option.bind_some] at hr
+      have hn := fwdNode_nested n hp.1 e e1 h1
+      have hrest := fwdKids_nested_copy ns hp.2 a e1 r hr
+      simp only [fwdKids, Bool.false_and, Bool.false_eq_true, if_false, Exec.cur, Option.getD_some, hn, Exec.after,
+        Out.ret, Option.getD_none, Bool.or_self]
+      exact hrest
+
+theorem nested_outKeys (kids : List Node) (hp : PlainNodes kids) :
+    dedupLast (nodesInOut kids [] []).2 = outKeys (flatNodes kids) := by
+  have := (nested_keys_as_flattening kids hp).2
+  simpa [Node.outs] using this
+
+theorem flatKeys_outKeys (ms : List Mod) (hm : ∀ m ∈ ms, FlatKeys m.outs) : FlatKeys (outKeys ms) := by
+  intro k hk'
+  have := ((out_keys_last_writer ms).1 k).1 hk'
+  simp only [allOuts, List.mem_flatMap] at this
+  obtain ⟨m, hm', hkm⟩ := this
+  exact hm m hm' k hkm
+
+/-- **nested_forward_tensordict_out** — a nested sequence (default-option children, any depth) called with
+`tensordict_out=out`, top-level keys: `out` is returned with the computed value under every advertised out_key the run
+produced and its other entries as they were; the input is untouched. -/
+theorem nested_forward_tensordict_out (kids : List Node) (hp : PlainNodes kids) (arg out r : Env)
+    (hr : run (flatNodes kids) arg = some r) (hm : ∀ m ∈ flatNodes kids, FlatKeys m.outs) (ha : FlatEnv arg)
+    (hn : KeysNodup arg) (ho : FlatEnv out) :
+    ∃ out' al, fwdSeqOut false kids none false arg out = .ok (arg, out', al) ∧
+      ∀ t, Env.get? out' [t] =
+        if [t] ∈ outKeys (flatNodes kids) ∧ (Env.get? r [t]).isSome then Env.get? r [t] else Env.get? out [t] := by
+  obtain ⟨hf, hnd⟩ := run_inv (flatNodes kids) arg r hm ha hn hr
+  have hk := fwdKids_nested_copy kids hp arg arg r hr
+  refine ⟨updKeys out r (outKeys (flatNodes kids)), updAliases out r (outKeys (flatNodes kids)), ?_, ?_⟩
+  · simp [fwdSeqOut, hk, Exec.cur, nested_outKeys kids hp]
+  · intro t
+    exact updKeys_flat out r (outKeys (flatNodes kids)) ho hf hnd (flatKeys_outKeys _ hm) t
+
+/-- **nested_forward_inplace_false** — the same nested sequence built with `inplace=False` / `"empty"`: a new tensordict
+with exactly the advertised out_keys and their computed values; the input is left as it was. -/
+theorem nested_forward_inplace_false (kids : List Node) (hp : PlainNodes kids) (ip : Inplace) (hip : ip ≠ .yes)
+    (arg r : Env) (hr : run (flatNodes kids) arg = some r) (hm : ∀ m ∈ flatNodes kids, FlatKeys m.outs)
+    (ha : FlatEnv arg) (hn : KeysNodup arg) :
+    ∃ res al, fwdNode false (.seq kids (some ip) none false) arg = .ok { arg := arg, fresh := some res, aliased := al } ∧
+      ∀ t, Env.get? res [t] =
+        if [t] ∈ outKeys (flatNodes kids) ∧ (Env.get? r [t]).isSome then Env.get? r [t] else none := by
+  obtain ⟨hf, hnd⟩ := run_inv (flatNodes kids) arg r hm ha hn hr
+  have hk := fwdKids_nested_copy kids hp arg arg r hr
+  refine ⟨updKeys [] r (outKeys (flatNodes kids)), updAliases [] r (outKeys (flatNodes kids)), ?_, ?_⟩
+  · cases ip with
+    | yes => exact absurd rfl hip
+    | no => simp [fwdNode, skips, hk, Exec.cur, nested_outKeys kids hp]
+    | empty => simp [fwdNode, skips, hk, Exec.cur, nested_outKeys kids hp]
+  · intro t
+    have := updKeys_flat [] r (outKeys (flatNodes kids)) (fun _ h => by simp at h) hf hnd (flatKeys_outKeys _ hm) t
+    simpa [Env.get?] using this
+
+/-- **nested_forward_selected_out_keys** — the same nested sequence with selected out-keys `S`: the input object is
+returned; it gains the computed value under every selected key and under every key it already had, and no other key. -/
+theorem nested_forward_selected_out_keys (kids : List Node) (hp : PlainNodes kids) (S : List Key) (arg r : Env)
+    (hr : run (flatNodes kids) arg = some r) (hm : ∀ m ∈ flatNodes kids, FlatKeys m.outs) (ha : FlatEnv arg)
+    (hn : KeysNodup arg) (hS : FlatKeys S) :
+    ∃ res al, fwdNode false (.seq kids none (some S) false) arg = .ok { arg := res, fresh := none, aliased := al } ∧
+      ∀ t, Env.get? res [t] =
+        if ([t] ∈ S ∨ (Env.get? arg [t]).isSome) ∧ (Env.get? r [t]).isSome then Env.get? r [t] else Env.get? arg [t] := by
+  obtain ⟨hf, hnd⟩ := run_inv (flatNodes kids) arg r hm ha hn hr
+  have hk := fwdKids_nested_copy kids hp arg arg r hr
+  have hflatK : FlatKeys (S ++ arg.map (·.1)) := by
+    intro k hk'
+    rcases List.mem_append.1 hk' with h | h
+    · exact hS k h
+    · obtain ⟨kv, hkv, rfl⟩ := List.mem_map.1 h; exact ha kv hkv
+  have hmemarg : ∀ t, [t] ∈ arg.map (·.1) ↔ (Env.get? arg [t]).isSome := by
+    intro t
+    have : ∀ (e : Env), ([t] ∈ e.map (·.1)) ↔ (Env.get? e [t]).isSome := by
+      intro e
+      induction e with
+      | nil => simp [Env.get?]
+      | cons y e ih =>
+        obtain ⟨k0, v0⟩ := y
+        simp only [List.map_cons, List.mem_cons, Env.get?]
+        by_cases h0 : k0 = [t]
+        · simp [h0]
+        · have : ¬ [t] = k0 := fun e => h0 e.symm
+          simp [h0, this, ih]
+    exact this arg
+  refine ⟨updKeys arg r (S ++ arg.map (·.1)), updAliases arg r (S ++ arg.map (·.1)), ?_, ?_⟩
+  · simp [fwdNode, skips, hk, Exec.cur]
+  · intro t
+    rw [updKeys_flat arg r (S ++ arg.map (·.1)) ha hf hnd hflatK t]
+    simp only [List.mem_append, hmemarg t]
+
 end TdVerif.Props.C14
